@@ -9,7 +9,7 @@ from .. import core
 
 SYM = {"N": "N½", "S": "S½", "E": "E½", "W": "W½",
        "NE": "NE¼", "NW": "NW¼", "SE": "SE¼", "SW": "SW¼", "ALL": "ALL"}
-CHANNELS = ("config", "kw", "attr", "plss", "mixed")     # mixed: one depth setting configured, the related one by keyword
+CHANNELS = ("config", "kw", "attr", "plss", "mixed", "mixed_plss")     # mixed: one depth setting configured, the related one by keyword
 COMPS = ("N", "S", "E", "W", "NE", "NW", "SE", "SW")
 
 
